@@ -39,7 +39,9 @@ pub const ORIG_CLASSES: &[&str] = &[
     "é$",
     "q.$é$x",
 ];
-pub const OBF_METHODS: &[&str] = &["a", "b", "m", "<init>", "c", "ab", "a$", "k", "onClick", "\u{1D49C}", "\u{FF21}"];
+pub const OBF_METHODS: &[&str] = &["a", "b", "m", "<init>", "c", "ab", "a$", "k", "onClick", "\u{1D49C}", "\u{FF21}",
+    // NUL inside a name: `(name, args)` compared as a tuple vs as one joined string
+    "a\u{0}", "k\u{0}b", "a\u{1}"];
 pub const ORIG_METHODS: &[&str] = &[
     "foo", "bar", "<init>", "lambda$x$0", "baz", "foo2", "onClick", "x", "<clinit>", "méthode",
     // concatenation coincidences with ARGS ("" ++ "intfoo" = "int" ++ "foo", …)
@@ -47,7 +49,7 @@ pub const ORIG_METHODS: &[&str] = &[
     // … and in the other order ("fooint" ++ "" = "foo" ++ "int", …)
     "fooint", "xint", "barint,long", "xa.b",
 ];
-pub const ARGS: &[&str] = &["", "int", "java.lang.String", "int,long", "a.b", "android.view.View", "int[]"];
+pub const ARGS: &[&str] = &["", "int", "java.lang.String", "int,long", "a.b", "android.view.View", "int[]", "z", "b", "b\u{0}c", "c", "\u{0}"];
 pub const TYPES: &[&str] = &["void", "int", "java.lang.String", "a.b[]", "o.A", "boolean", "é.T"];
 pub const FILES: &[&str] = &["Foo.kt", "Bar.java", "R8$$SyntheticClass", "SourceFile", "Ünï.kt", "x", "C:\\src\\Foo.kt", "a\\", "\\", "R8$$SyntheticClass", "{}", "a:b"];
 
@@ -362,6 +364,8 @@ pub fn gen_mapping(rng: &mut Rng, cfg: &Cfg) -> GenMapping {
                         0 => a,
                         1 => a.saturating_sub(rng.below(3) as u64), // inverted / equal
                         2 => 0,
+                        // a span that is a multiple of 2^8 / 2^16 / 2^24: end ≡ start in a narrower width
+                        3 if a < (1 << 31) => a + rng.pick(&[256u64, 65536, 131072, 1 << 24, 65536 * 3]),
                         _ => a.saturating_add(rng.below(6) as u64),
                     };
                     Some((a, b))
